@@ -161,8 +161,8 @@ theorem vstep_determined (c : Config) (hk : c.keep = true) (hs : c.safe = false)
     (vStepOps c g).2 = ⟨false, false, true⟩ := by
   obtain ⟨isSync, recalc, allocated⟩ := g
   simp only at hg; subst hg
-  cases isSync <;> cases recalc <;> cases hv : c.vfix <;>
-    simp [vStepOps, vPart1Ops, vPart2Ops, vSyncOps, initF, hk, hs, hv, vTransferList, vTransfer]
+  cases isSync <;> cases recalc <;> cases hv : c.vfix <;> cases hp : c.p1fix <;>
+    simp [vStepOps, vPart1Ops, vPart2Ops, vSyncOps, initF, hk, hs, hv, hp, vTransferList, vTransfer]
 
 theorem vsync_keep (S : VSem T PJ X V A VX VV VA) (c : Config) (hk : c.keep = true) (f : Flags)
     (s : VSt PJ X V A VX VV VA) :
@@ -298,6 +298,7 @@ theorem vinv_apply {S : VSem T PJ X V A VX VV VA} (K : VClock S) (c : Config) (h
         K.vposOf]
   | step =>
     cases allocated <;> cases isSync <;> cases recalc <;> cases hk : c.keep <;> cases hs : c.safe <;>
+      cases hp : c.p1fix <;>
       simp_all [vApply, vOpOps, vStepOps, vPart1Ops, vPart2Ops, vSyncOps, initF, vExec, vDenote, VInv,
         Op.isStep, K.kepler, K.com, K.jump, K.inter, K.vcom, K.vposOf, K.fromI, K.rescale, K.ev_half] <;>
       omega
